@@ -33,6 +33,9 @@ type ConnHistory struct {
 
 	C2S, S2C HalfRecord
 	Client   *ClientHistory
+
+	SrvCloseSeq   int // backend events recorded before the server closed its endpoint, -1 = it never did
+	SrvLateWrites int // server Write calls after it had closed its endpoint
 }
 
 type driver struct {
